@@ -36,6 +36,7 @@ func simConfig(cf *tape.Tape, opsBound int, trace bool) Config {
 	c.StallMax = cf.Intn(12)
 	c.DelayStart = []int{0, 0, 4, 16}[cf.Intn(4)]
 	c.StepBudget = 20 * opsBound
+	c.Procs = []int{1, 2, 4, 16}[cf.Intn(4)]
 	return c
 }
 
